@@ -21,6 +21,10 @@ def run_gosync():
     return out.strip()
 
 
+def setup():
+    build_race()
+
+
 def build_race():
     name = "impl_race_" + PID
     env = dict(GOENV, CGO_ENABLED="1")
